@@ -244,9 +244,8 @@ def check_one(args):
                 m["first_violation"] = [l for l in p.stdout.splitlines() if "violation oracle" in l][:1]
                 break
             if p.returncode not in (0, 1):
-                killed = cid + ":harness-error"
-                m["first_violation"] = p.stdout.strip().splitlines()[-3:]
-                break
+                # no verdict from this check (it crashed or hung): note it and go on with the other checks
+                m.setdefault("harness_errors", []).append((cid, p.stdout.strip().splitlines()[-2:]))
     finally:
         restore(m, wt)
     m["killed_by"] = killed
